@@ -359,9 +359,13 @@ Definition connect_event (me : tid) : M unit :=
 Definition after_open_polling (me : tid) (call : N) (rest : list spk) : M unit :=
   receive_all me rest ;;;
   s <- getst ;;
-  if upgrades_ws s && existsb (fun x => match x with TrWebsocket => true | _ => false end) (transports s)
-  then ws_connect me call (sid_set s)
-  else start_loops false ;;; conn_ok me call.
+  match state s with
+  | Connected =>
+    if upgrades_ws s && existsb (fun x => match x with TrWebsocket => true | _ => false end) (transports s)
+    then ws_connect me call (sid_set s)
+    else start_loops false ;;; conn_ok me call
+  | _ => conn_ok me call         (* the connection ended while its handshake was being handled (fix D38): connect() is done *)
+  end.
 
 Definition open_reply (me : tid) (call : N) (tout : bool) (h : hid) : M unit :=
   r <- http_take h ;;
